@@ -11,7 +11,8 @@
    Names arrive as label arrays, hashes as opaque strings computed by the
    harness with crypto/sha256 (p: first 4 hex characters, r: the other 60):
      Start                                                    new objects
-     Reset       id, names [{n,p,r}], obs [full hashes held by the Storage afterwards]
+     Reset       id, names [{n,p,r}], obs [full hashes held by the Storage afterwards;
+                 via = "unobserved": the harness cannot see inside the Storage]
      Lookup      id, host, qt, subs [{n,p,r}: every sub-domain of host], matched, rule
      Member      id, names [{n,p,r}], hits [n: Storage.Matches said yes]
      PrefixQuery id ("none": not under a suffix), strs, resp, hashes, next     *)
@@ -30,7 +31,7 @@ Conf(c, why) == IF c THEN TRUE ELSE PrintT(<<"NONCONF", l, why>>)
 \* The PSL entries that can match a name made of the labels the harness uses
 \* (the harness cross-checks this table against the publicsuffix library for
 \* every host it generates and aborts on a difference).
-TrIcann == {<<"com">>, <<"uk">>, <<"co", "uk">>, <<"org">>}
+TrIcann == {<<"com">>, <<"uk">>, <<"co", "uk">>, <<"org">>, <<"org", "uk">>}
 TrPrivate == {<<"blogspot", "com">>, <<"co", "com">>, <<"uk", "com">>, <<"blogspot", "co", "uk">>}
 
 TraceInit == Init /\ l = 1
@@ -41,7 +42,7 @@ TrStart == /\ E.ev = "Start"
 
 TrReset == /\ E.ev = "Reset"
            /\ LET hf == HF(E.names) IN Reset(E.id, DOMAIN hf, hf)
-           /\ Conf(ToSet(E.obs) = {Full(x) : x \in store'[E.id]},
+           /\ Conf(E.via = "unobserved" \/ ToSet(E.obs) = {Full(x) : x \in store'[E.id]},
                    <<"the storage does not hold exactly the hashes of the new list; expected", {Full(x) : x \in store'[E.id]}>>)
 
 TrLookup == /\ E.ev = "Lookup"
